@@ -26,10 +26,12 @@ def valid_image(im, path):
     return img
 
 
-def images_add_arch(sym, n):
-    """Images.add accepts exactly the known binary architectures"""
+def images_add_arch(sym, n, versioned=False):
+    """Images.add accepts exactly the known binary architectures - whatever format version the manifest's header says"""
     arch = sym.str("arch", n)
     im = Images()
+    if versioned:
+        im.header.version = "%d.%d" % (sym.int("major", 0, 2), sym.int("minor", 0, 3))
     img = valid_image(im, "Server/source/iso/a.iso")
     try:
         im.add("Server", arch, img)
@@ -231,6 +233,7 @@ def jobs(tier, seed):
     out = [
         {"harness": "images_add_arch", "params": {"n": 14 if big else 12}},
         {"harness": "rpms_add_arch", "params": {"n": 14 if big else 12}},
+        {"harness": "images_add_arch", "params": {"n": 8 if big else 6, "versioned": True}},
     ]
     for kind in ("rpms", "images"):
         for same in (True, False):
@@ -247,6 +250,7 @@ META = {
                         "rpms_old_src": ["loaded", "rewritten"]},
     "assumptions": [
         "add: the architecture argument is an arbitrary string up to 12 (thorough 14) characters; membership in the real 61-entry table is one formula",
+        "Images.add also on manifests whose header version is any 'M.N' with M in 0..2, N in 0..3 (legacy manifests are built that way)",
         "histories: three adds on one manifest (the same arch three times, or a second arbitrary one in between), arch strings up to 8 (thorough 12) characters",
         "old documents: layouts from a catalogue (1-2 variants, 1-3 binary arches, src entry present/absent), every leaf symbolic; "
         "images header version 1.0/1.1 and rpms header version 0.0-0.3 as a symbolic integer; a variant with only a src entry is outside the claim",
